@@ -172,6 +172,33 @@ def drv_text(c, k):
 
 
 def replay_of(c):
-    return {'key': c['key'], 'kind': c['kind'], 'session': c['text'], 'place': c['place'], 'is128': c['is128'], 'p7': c['p7'],
+    return {'key': c['key'], 'kind': c['kind'], 'impl': c.get('impl', 'c'), 'session': c['text'],
             'program': ['%d %s' % (a, t) for a, t, b in c['prog']['ins']],
-            'ops': [{k: v for k, v in o.items()} for o in c['ops']], 'exc': c['exc']}
+            'observed': [{'op': drv_text(c, k), 'asm': o['asm'], 'html': o['html']} for k, o in enumerate(c['ops'])],
+            'exc': c['exc'], 'case': c}
+
+
+def replay(path):
+    """./check E01 --replay replays/E01-n.json : write that skool file again, rerun the tools, judge again"""
+    import json
+    with open(path) as f:
+        d = json.load(f)
+    rp = d.get('replay') or {}
+    print('replay of %s: key %s' % (path, d.get('key')))
+    if 'case' not in rp:
+        print('  (no session recorded: rerun ./check E01)')
+        return 0
+    wd = workdir('e01-replay')
+    cbuild.preload()
+    drv.prepare_cwd(os.path.join(wd, 'cwd'))
+    c = drv.observe(rp['case'], wd, 'replay')
+    os.chdir(VERIF)
+    r, fails = tlc.judge('simmacro', 'SimCases', 'SimCases.cfg', [drv.slim(c)], casefile=os.path.join(wd, 'cases.json'),
+                         env={'JAVA_TOOL_OPTIONS': '-Xss64m'})
+    for k, o in enumerate(c['ops']):
+        print('  %2d %-60s asm=%s html=%s' % (k + 1, drv_text(c, k)[:60], o['asm'], o['html']))
+    for i, clause in fails:
+        print('  FAIL ' + clause + (' ' + c['exc'] if c['exc'] else ''))
+    rmworkdir('e01-replay')
+    print('VIOLATION reproduced' if fails else 'no violation on replay')
+    return 1 if fails else 0
